@@ -91,6 +91,10 @@ def _check_dihedral(ctx, rows, fai, integral):
         if a == 0 and row != rows[b]:
             ctx.violation("dihedral.first_copy_not_identity", "first copy differs from the original", {"row": r, **witness})
     ctx.count("dihedral rows compared", len(real))
+    if fai and N >= 2 and B >= 2:
+        ctx.sample({"case": "StateAugmentation(dihedral8)", "B": B, "instance_1_grid_1024": rows[1][:3], "row_1*B+1 (copy 1)": real[B + 1][:3],
+                    "sqdist node0-node1 original": ac.sq(rows[1][0], rows[1][1]), "on copy 1": ac.sq(real[B + 1][0], real[B + 1][1]),
+                    "copy 0 == original": real[1] == rows[1]}, cap=1)
 
 
 def _sym_params(seed, A, B):
@@ -171,6 +175,11 @@ def _check_symmetric(ctx, rows, A, fai, seed):
             if d0 == 0.0:
                 ctx.count("symmetric first copy bit-identical")
     ctx.count("symmetric rows compared", len(real))
+    if fai and A >= 2 and N >= 2 and len(ctx.samples) < 2:
+        r = len(real) - 1
+        ctx.sample({"case": "StateAugmentation(symmetric)", "A": A, "B": B, "torch_seed": seed, "phi_last_row": round(float(phi[r]), 4),
+                    "reflected": bool(swap[r]), "instance": orig[r % B][:2], "augmented_row": [[round(v, 5) for v in pt] for pt in real[r][:2]],
+                    "max |model-real|": worst, "sqdist dev of that row": _iso_dev(orig[r % B], [tuple(pt) for pt in real[r]])}, cap=2)
 
 
 def _check_transform_direct(ctx):
@@ -266,6 +275,9 @@ def _check_costs(ctx, kind, fn, A, n, B, seed):
         if int(f["reward"]) != -obj:
             ctx.disagreement("aug: reward model differs from the Spec objective", {"reply": reps[r], "actions": acts[r]})
     ctx.count(f"cost invariance {['tsp', 'cvrp'][kind]} {fn} A={A}", A * B)
+    ctx.sample({"case": "tour cost on an augmented copy", "env": ["tsp", "cvrp"][kind], "fn": fn, "A": A, "row": A * B - 1,
+                "actions": acts[-1], "env reward on the copy (ticks)": float(r_aug[-1]) * rl.SCALE,
+                "Lean objective on the original (ticks)": int(parse_fields(reps[-1])["obj"])}, cap=3)
 
 
 def run_transform(ctx):
@@ -542,6 +554,11 @@ def _eval_once(ctx, env, kind, insts, policy, pname, method, nb, A, samples, sol
             ctx.disagreement("aug: candidate count per instance", {"i": i, "got": len(cand_of[i]), "K": K, **witness})
         if len({o for _, o in cand_of[i]}) > 1:
             ctx.count("instances whose candidates have different costs")
+    if K > 1 and M >= 2:
+        ctx.sample({"case": "evaluate_policy", "env": ["tsp", "cvrp"][kind], "policy": pname, "method": method, "dataset": M,
+                    "loader_batches": sizes, "K candidates/instance": K, "instance 1 reported reward (ticks)": rew_ticks[1],
+                    "objective of returned actions on the ORIGINAL instance": ret_obj[1], "returned actions": actions[1],
+                    "costs of its candidates (copy/start index, ticks)": cand_of[1][:8]}, cap=3)
     # ---- never worse than solo greedy when the greedy rollout is among the candidates ----------------
     if solo_greedy is not None and method != "sampling":
         for (off, Bj, L, cand) in metas:
@@ -700,11 +717,19 @@ def _compare_row(ctx, tag, solo, batch, p, Bsz, what, witness, S=1, s=0, kp=""):
     a2 = batch["actions"][r_bat].tolist()
     T1 = len(a1)
     # per-step logits over the solo horizon
-    gap_small, worst = False, 0.0
+    gap_small, worst, row_scale = False, 0.0, 1.0
     n_steps = min(len(solo["trace"]), len(batch["trace"]))
     comparable = len(solo["trace"]) > 0 and all(
         solo["trace"][t][0].shape[0] == S and batch["trace"][t][0].shape[0] == S * Bsz for t in range(n_steps))
     if comparable:
+        # float32: 1e-4 relative to the largest logit magnitude this row sees over the whole decoding (un-normalised
+        # features such as CVRPTW's give logits of ~1e3-1e4; a step whose logits cancel to small values keeps that noise)
+        row_scale = 1.0
+        for t in range(n_steps):
+            v = solo["trace"][t][0][r_solo]
+            v = v[torch.isfinite(v)]
+            if v.numel():
+                row_scale = max(row_scale, float(v.abs().max()))
         for t in range(n_steps):
             l1, m1 = solo["trace"][t]
             l2, m2 = batch["trace"][t]
@@ -716,11 +741,10 @@ def _compare_row(ctx, tag, solo, batch, p, Bsz, what, witness, S=1, s=0, kp=""):
                 v1, v2 = v1[keep], v2[keep]
             fin = torch.isfinite(v1) & torch.isfinite(v2)
             if bool(fin.any()):
-                scale = max(1.0, float(v1[fin].abs().max()))  # float32: 1e-4 relative to the logit magnitude
-                worst = max(worst, float((v1[fin] - v2[fin]).abs().max()) / scale)
+                worst = max(worst, float((v1[fin] - v2[fin]).abs().max()) / row_scale)
             if v1.numel() >= 2:
                 top = torch.topk(v1[torch.isfinite(v1)], min(2, int(torch.isfinite(v1).sum()))).values
-                if top.numel() == 2 and float(top[0] - top[1]) < LOGIT_TOL * max(1.0, float(top.abs().max())):
+                if top.numel() == 2 and float(top[0] - top[1]) < LOGIT_TOL * row_scale:
                     gap_small = True
         ctx.count("rows with per-step logits compared")
     else:
@@ -731,7 +755,11 @@ def _compare_row(ctx, tag, solo, batch, p, Bsz, what, witness, S=1, s=0, kp=""):
     t1, t2 = solo["reward"][r_solo].double().flatten(), batch["reward"][r_bat].double().flatten()
     r1, r2 = t1.tolist(), t2.tolist()
     same_reward = t1.shape == t2.shape and bool(((t1 - t2).abs() <= 1e-5 * t1.abs().clamp(min=1.0)).all())
-    if worst > LOGIT_TOL:
+    ctx._last_dev = worst
+    # attention scores of magnitude M carry float32 noise ~1e-7*M which the softmax turns into a RELATIVE error of the
+    # same size in the glimpse and hence in the logits: allowed relative gap 1e-4 + 4e-7*M (M <= 10: 1e-4; CVRPTW's
+    # un-normalised features give M ~ 1e3-1e4)
+    if worst > LOGIT_TOL + 4e-7 * row_scale:
         ctx.violation(_key(tag, ("rng-logits-pos0:batch" if p == 0 else "rng-logits:batch") if kp else "logits_depend_on_batch"),
                       f"{what}: per-step logits of the same instance differ by {worst:.3g} (> {LOGIT_TOL}) between solo and batch decoding",
                       {"max_logit_dev": worst, **witness})
@@ -793,8 +821,10 @@ def _batch_invariance(ctx, pname, build, ename, multistart, call=None, env_facto
         torch.manual_seed(ctx.rng.randrange(1 << 30))
         pol = build(ename).eval()
         torch.manual_seed(ctx.rng.randrange(1 << 30))
-        pool = env.reset(env.generator(batch_size=[9]))
+        pool, groups, differing = zoo.make_pool(ename, env, ctx.rng, 9, env_factory)
         seed = ctx.rng.randrange(1 << 30)
+        for k in differing:
+            ctx.count(f"per-instance parameter differs inside the batches: {ename}.{k}")
     except Exception as e:
         ctx.count(f"unavailable: {tag}")
         ctx.note(f"unavailable {tag}: {type(e).__name__}: {str(e)[:120]}")
@@ -864,8 +894,12 @@ def _batch_invariance(ctx, pname, build, ename, multistart, call=None, env_facto
         for p in positions:
             others = [k for k in range(1, 9)]
             ctx.rng.shuffle(others)
+            if p > 0:  # the row at position 0 comes from another parameter group than the instance under test
+                others.sort(key=lambda k: groups[k] == groups[0])
             idx = others[:Bsz - 1]
             idx.insert(p, 0)
+            if p > 0 and groups[idx[0]] != groups[0]:
+                ctx.count("compositions whose row 0 has other per-instance parameters than the instance under test")
             comps.append((f"unrelated B={Bsz} pos={p}", idx, p))
     comps.append(("duplicates B=2", [0, 0], 1))
     comps.append(("duplicates B=3", [0, 0, 0], 2))
@@ -883,6 +917,12 @@ def _batch_invariance(ctx, pname, build, ename, multistart, call=None, env_facto
         ctx.count(f"composition {label.split(' pos=')[0]}")
         res = _compare_row(ctx, tag, solo, bat, p, Bsz, f"{pname} on {ename}, {label}", {"composition": label, "rows": idx, **wit0}, kp=kp)
         results[res] += 1
+        if Bsz == 3 and p == 2 and res == "same" and label.startswith("unrelated") and (differing or not ctx.samples):
+            ctx.sample({"case": "solo vs batch greedy decoding", "policy": pname, "env": ename, "composition": label, "pool_rows": idx,
+                        "per-instance parameters differing in the pool": differing, "solo actions": solo["actions"][0].tolist(),
+                        "batch row actions": bat["actions"][p].tolist(), "solo reward": solo["reward"][0].flatten().tolist(),
+                        "batch reward": bat["reward"][p].flatten().tolist(),
+                        "max relative logit gap over the steps": getattr(ctx, "_last_dev", None)}, cap=3)
         if res == "diff" and not ctx.searching:
             break
     if multistart and results["diff"] == 0:
